@@ -417,6 +417,28 @@ func (ip *Interp) load(p PtrV, st *State, fr *frame, pos token.Pos) Val {
 	return v
 }
 
+// closureEscapes records the heap allocation of a capturing closure at the point where it escapes.
+func (ip *Interp) closureEscapes(v Val, st *State, fr *frame, pos token.Pos) {
+	switch x := v.(type) {
+	case ClosureV:
+		if len(x.Bind) > 0 {
+			st.addEffect(&Effect{Kind: EAlloc, Pos: pos, Fn: fr.fn, Stack: fr.stack, Sites: fr.sites, Note: "closure with captured variables escapes", Val: x})
+		}
+	case IfaceV:
+		if x.Dyn != nil {
+			ip.closureEscapes(x.Dyn, st, fr, pos)
+		}
+	case StructV:
+		for _, f := range x.F {
+			ip.closureEscapes(f, st, fr, pos)
+		}
+	case TupleV:
+		for _, f := range x.E {
+			ip.closureEscapes(f, st, fr, pos)
+		}
+	}
+}
+
 func (ip *Interp) staleUse(sv SliceV, what string, st *State, fr *frame, pos token.Pos) {
 	if sv.Stale != "" && sv.LenFresh && (what == "len" || what == "copy" || what == "clear") {
 		return // only the length is used, and it was set explicitly
@@ -482,6 +504,7 @@ func (ip *Interp) store(p PtrV, v Val, st *State, fr *frame, pos token.Pos) {
 		ip.undecided(st, fr, pos, "store: bad path")
 		return
 	}
+	ip.closureEscapes(v, st, fr, pos)
 	st.mem[p.Obj] = nv
 	if p.Obj.Kind != OFresh {
 		st.addEffect(&Effect{Kind: EStoreField, Pos: pos, Fn: fr.fn, Stack: fr.stack, Sites: fr.sites, Obj: p.Obj, Path: p.Path, Val: v})
@@ -585,6 +608,9 @@ func (ip *Interp) execFrom(fr *frame, b *ssa.BasicBlock, idx int, pred *ssa.Basi
 					ret = tv
 				}
 				ip.npaths++
+				if fr.depth == 0 {
+					ip.closureEscapes(ret, st, fr, x.Pos())
+				}
 				return []Outcome{{Kind: ORet, Ret: ret, St: st, Pos: x.Pos()}}
 			case *ssa.Panic:
 				ip.npaths++
@@ -666,13 +692,51 @@ func (ip *Interp) execIf(fr *frame, b *ssa.BasicBlock, x *ssa.If, st *State) []O
 // only select values for the phis of the join (e.g. `if x > acc { acc = x }`):
 // the phis become if-then-else terms and the path is not forked.
 func (ip *Interp) ifConvert(fr *frame, b *ssa.BasicBlock, cond *Term, st *State) ([]Outcome, bool) {
+	// an arm may hold pure value computations (arithmetic without division, len/cap, changes of type):
+	// they are evaluated speculatively, which cannot fail or have an effect
 	emptyJump := func(x *ssa.BasicBlock) *ssa.BasicBlock {
-		if len(x.Instrs) == 1 && len(x.Preds) == 1 {
-			if _, ok := x.Instrs[0].(*ssa.Jump); ok {
-				return x.Succs[0]
+		if len(x.Preds) != 1 || len(x.Instrs) == 0 || len(x.Instrs) > 6 {
+			return nil
+		}
+		if _, ok := x.Instrs[len(x.Instrs)-1].(*ssa.Jump); !ok {
+			return nil
+		}
+		for _, in := range x.Instrs[:len(x.Instrs)-1] {
+			switch y := in.(type) {
+			case *ssa.DebugRef, *ssa.ChangeType:
+			case *ssa.BinOp:
+				if y.Op == token.QUO || y.Op == token.REM || y.Op == token.SHL || y.Op == token.SHR {
+					return nil
+				}
+			case *ssa.UnOp:
+				if y.Op != token.SUB && y.Op != token.NOT && y.Op != token.XOR {
+					return nil
+				}
+			case *ssa.Call:
+				b, ok := y.Call.Value.(*ssa.Builtin)
+				if !ok || (b.Name() != "len" && b.Name() != "cap") {
+					return nil
+				}
+			default:
+				return nil
 			}
 		}
-		return nil
+		return x.Succs[0]
+	}
+	runArm := func(x *ssa.BasicBlock) bool {
+		for _, in := range x.Instrs[:len(x.Instrs)-1] {
+			if cl, ok := in.(*ssa.Call); ok {
+				n := len(st.effects)
+				outs := ip.call(fr, cl, st)
+				if len(outs) != 1 || outs[0].Kind != ORet || len(outs[0].St.effects) != n {
+					return false
+				}
+				fr.env[cl] = outs[0].Ret
+				continue
+			}
+			ip.step(fr, in, st)
+		}
+		return true
 	}
 	s0, s1 := b.Succs[0], b.Succs[1]
 	var join, p0, p1 *ssa.BasicBlock
@@ -699,6 +763,17 @@ func (ip *Interp) ifConvert(fr *frame, b *ssa.BasicBlock, cond *Term, st *State)
 		}
 	}
 	if i0 < 0 || i1 < 0 || i0 == i1 {
+		return nil, false
+	}
+	nEff := len(st.effects)
+	if p0 != b && !runArm(p0) {
+		return nil, false
+	}
+	if p1 != b && !runArm(p1) {
+		return nil, false
+	}
+	if len(st.effects) != nEff {
+		st.effects = st.effects[:nEff] // speculative staleness notes etc. are dropped; the fork below re-creates them
 		return nil, false
 	}
 	vals := map[*ssa.Phi]Val{}
@@ -762,6 +837,15 @@ func firstPos(b *ssa.BasicBlock) token.Pos {
 	return token.NoPos
 }
 
+// substK evaluates a header value at iteration 0 (used when the loop body never runs).
+func substK(v Val, k *Term) Val {
+	t, ok := v.(*Term)
+	if !ok {
+		return v
+	}
+	return t.subst(map[string]*Term{k.Name: mkInt(0, intT)})
+}
+
 type carried struct {
 	phi  *ssa.Phi
 	init Val
@@ -787,7 +871,7 @@ func (ip *Interp) execLoop(fr *frame, lp *loopInfo, pred *ssa.BasicBlock, st *St
 	}
 	bfr := fr.fork()
 	var car []carried
-	var ivs []*ssa.Phi
+	var ivs, affine []*ssa.Phi
 	nphi := 0
 	for _, in := range h.Instrs {
 		phi, ok := in.(*ssa.Phi)
@@ -819,12 +903,58 @@ func (ip *Interp) execLoop(fr *frame, lp *loopInfo, pred *ssa.BasicBlock, st *St
 			}
 		}
 		it, isTerm := init.(*Term)
+		// affine induction variable with a loop-invariant step: phi + s on every back edge
+		var step ssa.Value
+		if !isIV && !unchanged && isTerm && isIntLike(phi.Type()) {
+			okStep := true
+			for i, e := range phi.Edges {
+				if !lp.blocks[h.Preds[i]] {
+					continue
+				}
+				bo, ok := e.(*ssa.BinOp)
+				if !ok || bo.Op != token.ADD {
+					okStep = false
+					break
+				}
+				var s ssa.Value
+				switch {
+				case bo.X == ssa.Value(phi):
+					s = bo.Y
+				case bo.Y == ssa.Value(phi):
+					s = bo.X
+				default:
+					okStep = false
+				}
+				if !okStep {
+					break
+				}
+				if in, isInstr := s.(ssa.Instruction); isInstr && lp.blocks[in.Block()] {
+					okStep = false // the step is computed inside the loop
+					break
+				}
+				if step != nil && step != s {
+					okStep = false
+					break
+				}
+				step = s
+			}
+			if !okStep {
+				step = nil
+			}
+		}
 		switch {
 		case unchanged:
 			bfr.env[phi] = init
 		case isIV && isTerm && isIntLike(phi.Type()):
 			bfr.env[phi] = mkBin(token.ADD, it, ctx.K, phi.Type())
 			ivs = append(ivs, phi)
+		case step != nil:
+			if st, ok := ip.value(fr, step, st).(*Term); ok {
+				bfr.env[phi] = mkBin(token.ADD, it, mkBin(token.MUL, st, ctx.K, phi.Type()), phi.Type())
+				affine = append(affine, phi)
+			} else {
+				return fail("induction step of " + phi.Comment + " is not scalar")
+			}
 		case isTerm:
 			a := mkAtom(fmt.Sprintf("acc%d.%s", ctx.ID, phi.Comment), phi.Type())
 			bfr.env[phi] = a
@@ -833,8 +963,8 @@ func (ip *Interp) execLoop(fr *frame, lp *loopInfo, pred *ssa.BasicBlock, st *St
 			return fail("loop-carried value of non-scalar type (" + phi.Comment + ")")
 		}
 	}
-	if len(ivs) == 0 {
-		return fail("no induction variable with step 1")
+	if len(ivs) == 0 && len(affine) == 0 {
+		return fail("no induction variable")
 	}
 	// header body
 	bst := st.clone()
@@ -896,6 +1026,24 @@ func (ip *Interp) execLoop(fr *frame, lp *loopInfo, pred *ssa.BasicBlock, st *St
 	ctx.TripPoly = tripPoly
 	ctx.Trip = tripPoly.toTerm()
 	c.Tag = "loop"
+	if st.facts.impliesGE0(tripPoly.Neg()) {
+		// the loop provably runs zero times on this path: only the header is evaluated
+		post := st.clone()
+		post.effects = append(post.effects, bst.effects[len(st.effects):]...)
+		xfr := fr.fork()
+		for _, in := range h.Instrs[:nphi] {
+			phi := in.(*ssa.Phi)
+			xfr.env[phi] = ip.value(fr, phi.Edges[pi], st)
+		}
+		for i := nphi; i < len(h.Instrs)-1; i++ {
+			if v, ok := h.Instrs[i].(ssa.Value); ok {
+				if r, ok := bfr.env[v]; ok {
+					xfr.env[v] = substK(r, ctx.K)
+				}
+			}
+		}
+		return ip.enter(xfr, h, h.Succs[1-inIdx], post)
+	}
 	bst.facts.add(c)
 	nBase := len(bst.effects)
 	bfr.active = append(bfr.active, lp)
@@ -957,8 +1105,15 @@ func (ip *Interp) execLoop(fr *frame, lp *loopInfo, pred *ssa.BasicBlock, st *St
 	}
 	// exit environment
 	xfr := fr.fork()
-	for _, phi := range ivs {
-		xfr.env[phi] = mkAtom(fmt.Sprintf("exit%d.%s", ctx.ID, phi.Comment), phi.Type())
+	// value of an induction variable after the loop: init + step*max(0, trip)
+	trips := mkMinMax(OpMax, mkInt(0, intT), canon(ctx.Trip))
+	for _, phi := range append(append([]*ssa.Phi{}, ivs...), affine...) {
+		at, ok := bfr.env[phi].(*Term)
+		if !ok {
+			xfr.env[phi] = mkAtom(fmt.Sprintf("exit%d.%s", ctx.ID, phi.Comment), phi.Type())
+			continue
+		}
+		xfr.env[phi] = at.subst(map[string]*Term{ctx.K.Name: trips})
 	}
 	for _, cr := range car {
 		xfr.env[cr.phi] = ip.foldCarried(ctx, lp, cr, backs, nBodyFacts, post, fr)
@@ -1089,6 +1244,55 @@ func (ip *Interp) foldCarried(ctx *LoopCtx, lp *loopInfo, cr carried, backs []Ou
 		}
 		kind, f = k, canon(nv)
 	}
+	// the folded function may differ from path to path of the body (e.g. after a conditional reslice): if every
+	// path has the form max(acc, f_i), merge the f_i into one if-then-else over the path conditions
+	if !okAll && initT != nil {
+		var alt []Outcome
+		k2 := ""
+		good := true
+		for _, o := range backs {
+			pi := -1
+			for i, p := range h.Preds {
+				if p == o.from {
+					pi = i
+				}
+			}
+			if pi < 0 {
+				good = false
+				break
+			}
+			nfr := &frame{fn: fr.fn, env: o.env, info: fr.info}
+			nv, ok := ip.value(nfr, cr.phi.Edges[pi], o.St).(*Term)
+			if !ok {
+				good = false
+				break
+			}
+			cn := canon(nv)
+			var g *Term
+			if (cn.Op == OpMax || cn.Op == OpMin) && len(cn.Args) == 2 {
+				if cn.Args[0].Key() == cr.atom.Key() {
+					g = cn.Args[1]
+				} else if cn.Args[1].Key() == cr.atom.Key() {
+					g = cn.Args[0]
+				}
+			}
+			kk := map[Op]string{OpMax: "max", OpMin: "min"}[cn.Op]
+			if g == nil || g.contains(func(x *Term) bool { return x.Key() == cr.atom.Key() }) || (k2 != "" && k2 != kk) {
+				good = false
+				break
+			}
+			k2 = kk
+			oc := o
+			oc.Kind = ORet
+			oc.Ret = g
+			alt = append(alt, oc)
+		}
+		if good && len(alt) > 1 {
+			if m, ok := mergeIte(alt, nfacts, 0); ok {
+				return &Term{Op: OpFold, Name: k2, Typ: cr.phi.Type(), Loop: ctx, Args: []*Term{canon(initT), canon(m)}}
+			}
+		}
+	}
 	if !okAll || initT == nil {
 		return mkUnknown(fmt.Sprintf("loop-carried value %s of loop at %s is not a recognised fold", cr.phi.Comment, ip.fset.Position(ctx.Pos)), cr.phi.Type())
 	}
@@ -1169,7 +1373,7 @@ func (ip *Interp) step(fr *frame, in ssa.Instruction, st *State) {
 			o.LoopID = st.loops[n-1].ID
 		}
 		fr.env[x] = PtrV{Obj: o, Typ: pt.Elem()}
-		if x.Heap {
+		if x.Heap && !capturedByLocalClosuresOnly(x) {
 			st.addEffect(&Effect{Kind: EAlloc, Pos: x.Pos(), Fn: fr.fn, Stack: fr.stack, Sites: fr.sites, Obj: o, Note: "new " + typeKey(pt.Elem()) + " (" + x.Comment + ")", Heap: true, Typ: pt.Elem()})
 		}
 	case *ssa.BinOp:
@@ -1215,6 +1419,7 @@ func (ip *Interp) step(fr *frame, in ssa.Instruction, st *State) {
 		fr.env[x] = ip.value(fr, x.X, st)
 	case *ssa.MakeInterface:
 		v := ip.value(fr, x.X, st)
+		ip.closureEscapes(v, st, fr, x.Pos())
 		fr.env[x] = IfaceV{Dyn: v, DynT: x.X.Type()}
 		if !pointerShaped(x.X.Type()) {
 			_, isConst := x.X.(*ssa.Const)
@@ -1229,10 +1434,10 @@ func (ip *Interp) step(fr *frame, in ssa.Instruction, st *State) {
 		for _, b := range x.Bindings {
 			cv.Bind = append(cv.Bind, ip.value(fr, b, st))
 		}
+		cv.Pos = x.Pos()
 		fr.env[x] = cv
-		if len(x.Bindings) > 0 {
-			st.addEffect(&Effect{Kind: EAlloc, Pos: x.Pos(), Fn: fr.fn, Stack: fr.stack, Sites: fr.sites, Note: "closure with captured variables", Val: cv})
-		}
+		// a closure that is only called (by inlined package functions) lives on the stack; the allocation
+		// is recorded where it escapes: stored, boxed, passed to an external function or returned
 	case *ssa.MakeSlice:
 		ln, cp := ip.term(fr, x.Len, st), ip.term(fr, x.Cap, st)
 		el := x.Type().Underlying().(*types.Slice).Elem()
@@ -1674,16 +1879,26 @@ func mergeIte(outs []Outcome, n int, depth int) (*Term, bool) {
 	if depth > 16 {
 		return nil, false
 	}
-	// the first non-axiom fact after n of the first outcome splits the set
+	// the first fact after n of the first outcome whose negation occurs on another outcome splits the set
 	var split *Cond
 	pos := -1
-	for i := n; i < len(outs[0].St.facts.list); i++ {
+	for i := n; i < len(outs[0].St.facts.list) && split == nil; i++ {
 		c := outs[0].St.facts.list[i]
 		if c.Tag == "axiom" {
 			continue
 		}
-		split, pos = &c, i
-		break
+		nk := c.Not().Key()
+		for _, o := range outs[1:] {
+			for j := n; j < len(o.St.facts.list); j++ {
+				if o.St.facts.list[j].Key() == nk {
+					split, pos = &c, i
+					break
+				}
+			}
+			if split != nil {
+				break
+			}
+		}
 	}
 	if split == nil {
 		return nil, false
@@ -1763,6 +1978,9 @@ func fnName(fn *ssa.Function) string {
 
 func (ip *Interp) external(fr *frame, callee *ssa.Function, args []Val, resT types.Type, st *State, pos token.Pos) Val {
 	name := callee.String()
+	for _, a := range args {
+		ip.closureEscapes(a, st, fr, pos)
+	}
 	switch name {
 	case "math.Ceil", "math.Floor", "math.Round", "math.Trunc", "math.RoundToEven", "math.Abs":
 		if t, ok := args[0].(*Term); ok {
@@ -1779,6 +1997,15 @@ func (ip *Interp) external(fr *frame, callee *ssa.Function, args []Val, resT typ
 		if rv, ok := args[0].(ReflectV); ok {
 			if p, ok := rv.Of.(PtrV); ok && !p.Nil {
 				return ReflectV{Addr: &p}
+			}
+		}
+	case "(reflect.Value).Len", "(reflect.Value).Cap":
+		if rv, ok := args[0].(ReflectV); ok && rv.Addr != nil && rv.Addr.Obj != nil {
+			if cur, ok := ip.load(*rv.Addr, st, fr, pos).(SliceV); ok {
+				if strings.HasSuffix(name, "Len") {
+					return cur.Len
+				}
+				return cur.Cap
 			}
 		}
 	case "(reflect.Value).SetCap", "(reflect.Value).SetLen":
@@ -1944,4 +2171,91 @@ func (ip *Interp) appendBuiltin(fr *frame, args []Val, resT types.Type, st *Stat
 	st.addEffect(&Effect{Kind: EGrow, Pos: pos, Fn: fr.fn, Stack: fr.stack, Sites: fr.sites, Stor: g, Dst: &s, Src: &t, N: n, Note: note, Heap: true})
 	st.addEffect(&Effect{Kind: EAlloc, Pos: pos, Fn: fr.fn, Stack: fr.stack, Sites: fr.sites, Stor: g, Note: "append " + note, Heap: true})
 	return SliceV{Stor: g, Off: mkInt(0, intT), Len: newLen, Cap: ncap, Elem: s.Elem}
+}
+
+// capturedByLocalClosuresOnly: go/ssa marks every variable captured by a closure as a heap cell. When the
+// variable is only loaded, stored and bound into closures, and each of those closures is only ever called
+// (directly, or by an in-package function that receives it in a parameter it only calls), neither the closure
+// nor the cell outlives the frame, and the cell is a stack slot. The compiler's own verdict is cross-checked
+// by E6, which reports any "moved to heap" line that has no recorded site.
+func capturedByLocalClosuresOnly(a *ssa.Alloc) bool {
+	refs := a.Referrers()
+	if refs == nil {
+		return false
+	}
+	captured := false
+	for _, r := range *refs {
+		switch y := r.(type) {
+		case *ssa.Store:
+			if y.Val == ssa.Value(a) {
+				return false // the address itself is stored somewhere
+			}
+		case *ssa.UnOp:
+			if y.Op != token.MUL {
+				return false
+			}
+		case *ssa.MakeClosure:
+			captured = true
+			if !onlyCalled(y, 0) {
+				return false
+			}
+		case *ssa.DebugRef:
+		default:
+			return false
+		}
+	}
+	return captured
+}
+
+// onlyCalled: every use of the function value is a call of it, or passing it to a static in-package callee
+// whose corresponding parameter is itself only called.
+func onlyCalled(v ssa.Value, depth int) bool {
+	refs := v.Referrers()
+	if refs == nil || depth > 3 {
+		return false
+	}
+	for _, r := range *refs {
+		ci, ok := r.(ssa.CallInstruction)
+		if !ok {
+			if _, dbg := r.(*ssa.DebugRef); dbg {
+				continue
+			}
+			// instantiated generic code re-types a func value without changing it
+			if ct, isCT := r.(*ssa.ChangeType); isCT {
+				if _, isSig := ct.Type().Underlying().(*types.Signature); isSig && onlyCalled(ct, depth) {
+					continue
+				}
+			}
+			return false
+		}
+		if _, isGo := r.(*ssa.Go); isGo {
+			return false
+		}
+		if _, isDefer := r.(*ssa.Defer); isDefer {
+			return false
+		}
+		com := ci.Common()
+		if com.Value == v && !com.IsInvoke() {
+			// called; it must not also be passed to itself as an argument
+			for _, arg := range com.Args {
+				if arg == v {
+					return false
+				}
+			}
+			continue
+		}
+		callee := com.StaticCallee()
+		if callee == nil || len(callee.Blocks) == 0 || callee.Signature.Variadic() {
+			return false
+		}
+		for i, arg := range com.Args {
+			if arg != v {
+				continue
+			}
+			if i >= len(callee.Params) || !onlyCalled(callee.Params[i], depth+1) {
+				return false
+			}
+		}
+	}
+	return true
 }
